@@ -95,7 +95,7 @@ def handle (d : DS) (line : String) : DS × String :=
       | none => (d, "reject fwd not-in-walk")
     | _, _ => (d, "bad-op")
   | ["recvend", r] => match r.toNat? with | some r => doStep d (.recvEnd r) "recvEnd" | none => (d, "bad-op")
-  | ["final"] => (d, s!"quiescent={quiescent d.s} entries={d.s.es.length} executed={d.s.executed.length}")
+  | ["final"] => (d, s!"quiescent={quiescent d.s} idle={(List.range d.n).all (fun r => !d.s.walking r)} entries={d.s.es.length} executed={d.s.executed.length}")
   | _ => (d, "bad-op")
 
 end Driver.Deliver
